@@ -92,7 +92,20 @@ def check_refusal_order(run, rule):
             p = path(n["lhs"])
             if p and p[0] == "this" and len(p) == 2:
                 writes.append(n)
-    ok = bool(throws) and bool(writes) and max(order[id(t)] for t in throws) < min(order[id(w)] for w in writes)
+    # a write followed (in source order) by a throw is harmless when it sits in a branch that leaves the function before the
+    # throw can be reached (a fast path: `if (fits) { m_ticks += offset; return; }`)
+    def leaves_before(w, t):
+        for n_, parents in ir.walk_with_parents(f["body"]):
+            if n_ is w:
+                for a in reversed(parents):
+                    if a.get("k") == "If":
+                        for br in (a.get("then"), a.get("else")):
+                            if br is not None and any(x is w for x in ir.walk(br)) and not any(x is t for x in ir.walk(br)) and \
+                                    ir.always_leaves(br) and not any(x.get("k") == "Throw" and order[id(x)] > order[id(w)] for x in ir.walk(br)):
+                                return True
+                return False
+        return False
+    ok = bool(throws) and bool(writes) and all(order[id(t)] < order[id(w)] or leaves_before(w, t) for t in throws for w in writes)
     run.ob(rule, "add_time_offset:throws-before-writes", ok, f, (writes or [f])[0].get("l", f["line"]) if writes else f["line"],
            "every refusal (%d throw sites) precedes the first member write: a refused offset leaves the timestamp unchanged" % len(throws) if ok else
            "a member of the timestamp is written before a later throw: a refused offset leaves a half-updated timestamp")
@@ -283,6 +296,26 @@ def check_offset_formula(run, rule):
         return False
     ok = False
     why = "expected `return (secs*rate + ticks) - (reference.secs*rate + reference.ticks)`"
+    # a shortcut `return 0` is the formula's value when its guard says the two timestamps are the same object or have equal
+    # seconds and equal ticks: such returns need no further look
+    def same_timestamp(g_):
+        for alt in (g_[1:] if g_[0] == "or" else [g_]):
+            at = conjuncts(alt)
+            txt = repr(at)
+            ident = any(a_[0] == "cmp" and a_[1] == "==" and "this" in (a_[2], a_[3]) and ref in a_[2] + a_[3] for a_ in at)
+            eq_s = any(a_[0] == "cmp" and a_[1] == "==" and {a_[2], a_[3]} == {"this.m_secs", ref + ".m_secs"} for a_ in at)
+            eq_t = any(a_[0] == "cmp" and a_[1] == "==" and {a_[2], a_[3]} == {"this.m_ticks", ref + ".m_ticks"} for a_ in at)
+            if not (ident or (eq_s and eq_t)):
+                return False
+        return True
+    shortcut = []
+    for st_, g_, loops_ in ir.guarded_statements(f["body"], env):
+        if st_.get("k") == "Return" and const_value(st_.get("e")) == 0:
+            core = [a_ for a_ in conjuncts(g_) if a_ != ("nz", rate)]
+            disj = [a_ for a_ in core if a_[0] == "or"]
+            if (len(core) == 1 and disj and same_timestamp(disj[0])) or (core and not disj and same_timestamp(ir.f_and(*core))):
+                shortcut.append(st_)
+    rets = [r_ for r_ in rets if not any(r_ is s_ for s_ in shortcut)]
     if len(rets) == 1:
         e = unwrap_all_casts(rets[0]["e"])
         if isinstance(e, dict) and e.get("k") == "Bin" and e.get("op") == "-":
